@@ -613,7 +613,10 @@ func judgeC16(d *c16Data, res Result) *kernel.Violation {
 // then one error unless the cut is at a document boundary.
 func judgeStream(d *c16Data, res Result) *kernel.Violation {
 	sc := &d.Scenario
-	items := streamEvents(sc.Stdin)
+	var items []item // per source: the path state starts afresh in every file
+	for _, t := range sc.sourceTexts() {
+		items = append(items, streamEvents(t)...)
+	}
 	var want strings.Builder
 	errs := 0
 	var evs []any
@@ -674,7 +677,7 @@ func judgeStream(d *c16Data, res Result) *kernel.Violation {
 	if res.Exit != wantExit || countDiagnostics(res.Stderr) != errs {
 		return c16viol(d, "stream-status", "document %q cut at %d: exit %d with %d diagnostics, expected exit %d with %d", kernel.Short2(d.Doc, 200), d.Cut, res.Exit, countDiagnostics(res.Stderr), wantExit, errs)
 	}
-	if d.Cut < len(d.Doc) || errs > 0 {
+	if d.Cut < len(d.Doc) || errs > 0 || len(sc.Sources) > 0 {
 		return nil
 	}
 	// untruncated: fromstream over the printed events rebuilds every document, and for
@@ -920,6 +923,31 @@ func (C16) RunUnit(env *kernel.Env, unit int) {
 					out.Inc("stream_events_retained_" + retain)
 				}
 			}
+		}
+		// the stream split over a file and stdin (either order), the second part possibly truncated
+		{
+			other := genStreamDoc(r)
+			cut := len(other)
+			if r.Bool(0.5) && cut > 0 {
+				cut = r.Intn(cut + 1)
+			}
+			d := c16Data{Kind: "stream", Doc: doc + other, Cut: len(doc) + cut}
+			sc := &d.Scenario
+			sc.WriteFail = -1
+			sc.Flags, sc.Query = []string{"-c", "--stream"}, "."
+			if r.Bool(0.5) {
+				sc.Sources = []Source{{Name: "f", Text: doc}, {Name: "-"}}
+				sc.Stdin = other[:cut]
+			} else {
+				sc.Sources = []Source{{Name: "-"}, {Name: "f", Text: other[:cut]}}
+				sc.Stdin = doc
+			}
+			sc.Plan, sc.PlanClass = simio.GenPlan(r, len(sc.Stdin), nil)
+			out.Mark(kernel.NewCase("C16", d.Kind, d))
+			res := sc.Run()
+			v := judgeC16(&d, res)
+			record(&d, res, v)
+			out.Inc("stream_split_over_sources")
 		}
 		out.Inc("stream_documents_every_offset")
 	}
